@@ -13,6 +13,8 @@ def simS {α : Type} (x y : St × Outcome α) : Prop := x.1 = y.1 ∧ Outcome.si
 
 theorem simS_refl {α : Type} (x : St × Outcome α) : simS x x := ⟨rfl, Outcome.sim_refl _⟩
 
+theorem bindO_ok {α β : Type} (s : St) (a : α) (f : St → α → St × Outcome β) : bindO (s, Outcome.ok a) f = f s a := rfl
+
 theorem emptyChunk_footer (E : Nat) : (emptyChunk E).footer = E := by
   simp [emptyChunk, Chunk.footer]
 
